@@ -229,6 +229,21 @@ def execute(ctx: RunCtx) -> None:
 LEGS = {"history": execute}
 
 
+def known_replay_values(entry):
+    """Choice sequence of a known finding, rebuilt from its operation list so that alphabet changes cannot silently detach it."""
+    ops = entry.get("replay_ops")
+    if not ops:
+        return entry.get("replay_values")
+    from checks import c20_orbit, c20_cm
+    vals = list(entry["replay_values"])
+    ops = [tuple(o) for o in ops]
+    if vals[0] == 0:
+        return vals[:3] + [c20_orbit.ALPHABET.index(o) + 1 for o in ops] + [0]
+    if vals[0] == 1:
+        return vals[:6] + [c20_cm.ALPHABET.index(o) + 1 for o in ops] + [0]
+    return vals
+
+
 def pre_phases(report, cfg, procs):
     """Bounded-exhaustive sweep: every history of length <= enum_len over each machine's reduced alphabet."""
     from simkit.driver import run_jobs
